@@ -59,3 +59,93 @@ package parse
 //@ func allowedInBareword
 //@   trusted
 //@   pure
+
+// ---------------------------------------------------------------------------
+// C01 / C02: the parser's position state and its error reports.
+//
+// psvalid: the cursor is inside the source and the over-EOF counter is sane.
+// Every primitive keeps it; every error range handed to errorp lies inside the
+// source (that is also the precondition of diag.NewContext, property C37), and
+// an error is marked Partial exactly when its range starts at the end of the
+// source (C02: that is what the REPL uses to keep reading).
+
+//@ spec fn psvalid(ps *parser) bool = 0 <= ps.pos && ps.pos <= len(ps.src) && 0 <= ps.overEOF
+
+//@ func parser.peek
+//@   props C01
+//@   pure
+//@   requires psvalid(ps)
+//@   ensures (result == -1) == (ps.pos == len(ps.src))
+//@   ensures ps.pos < len(ps.src) ==> result == runeat(ps.src, ps.pos)
+
+//@ func parser.hasPrefix
+//@   props C01
+//@   pure
+//@   requires psvalid(ps)
+
+//@ func parser.next
+//@   props C01
+//@   requires psvalid(ps)
+//   (the over-EOF counter counts reads past the end of one parse; it cannot approach MaxInt)
+//@   requires ps.overEOF < 4611686018427387904
+//@   ensures psvalid(ps) && ps.src === old(ps.src) && ps.errors === old(ps.errors)
+//@   ensures old(ps.pos) == len(ps.src) ==> result == -1 && ps.pos == old(ps.pos) && ps.overEOF == old(ps.overEOF) + 1
+//@   ensures old(ps.pos) < len(ps.src) ==> result == runeat(ps.src, old(ps.pos)) && ps.pos == old(ps.pos) + sizeat(ps.src, old(ps.pos)) && ps.pos > old(ps.pos) && ps.overEOF == old(ps.overEOF)
+
+//@ func parser.backup
+//@   props C01
+//@   requires psvalid(ps)
+//@   ensures psvalid(ps) && ps.src === old(ps.src) && ps.errors === old(ps.errors)
+//@   ensures ps.pos <= old(ps.pos) && old(ps.pos) - ps.pos <= 4
+//@   ensures old(ps.overEOF) > 0 ==> ps.pos == old(ps.pos) && ps.overEOF == old(ps.overEOF) - 1
+
+//@ func parser.errorp
+//@   props C01 C02 C37
+//@   requires psvalid(ps)
+//@   requires [error-range-in-source] 0 <= diag.Ranger.Range(r).From && diag.Ranger.Range(r).From <= diag.Ranger.Range(r).To && diag.Ranger.Range(r).To <= len(ps.src)
+//@   ensures psvalid(ps) && ps.src === old(ps.src) && ps.pos == old(ps.pos) && ps.overEOF == old(ps.overEOF)
+//@   ensures len(ps.errors) == old(len(ps.errors)) + 1
+//@   ensures [partial-iff-at-end] ps.errors[len(ps.errors)-1] != nil && ps.errors[len(ps.errors)-1].Partial == (diag.Ranger.Range(r).From == len(ps.src))
+//@   ensures [context-range] ps.errors[len(ps.errors)-1].Context.From == diag.Ranger.Range(r).From && ps.errors[len(ps.errors)-1].Context.To == diag.Ranger.Range(r).To
+
+//@ func parser.error
+//@   props C01 C02
+//@   uses range_of_ranging
+//@   requires psvalid(ps)
+//@   ensures psvalid(ps) && ps.src === old(ps.src) && ps.pos == old(ps.pos) && ps.overEOF == old(ps.overEOF)
+//@   ensures len(ps.errors) == old(len(ps.errors)) + 1
+//@   ensures [partial-iff-at-end] ps.errors[len(ps.errors)-1].Partial == (ps.pos == len(ps.src))
+
+//@ func parser.done
+//@   props C01
+//@   requires psvalid(ps)
+//@   ensures psvalid(ps)
+//   trailing text that was not consumed is reported
+//@   ensures ps.pos != len(ps.src) ==> len(ps.errors) == old(len(ps.errors)) + 1
+
+// ---------------------------------------------------------------------------
+// C01: every node's range and text. Node.n is the accessor of the embedded
+// node record; Node.parse is the interface-level contract that every node
+// parser is ASSUMED to satisfy (trusted: the eleven implementations are not
+// verified one by one; the bounded stand-in c01-parse walks real parse trees).
+// The generic wrapper parse[N] is verified against it: it is the only place
+// where a node's To and source text are set.
+
+//@ func Node.n
+//@   pure
+//@   functional
+
+//@ func Node.parse
+//@   trusted
+//@   params ps
+//@   requires psvalid(ps)
+//@   ensures psvalid(ps) && ps.src === old(ps.src) && ps.pos >= old(ps.pos)
+//   a node may move its own start to the left (a Redir adopts its destination fd), never past the old cursor
+//@   ensures Node.n(self) != nil && 0 <= Node.n(self).From && Node.n(self).From <= old(ps.pos)
+
+//@ func parse
+//@   props C01
+//@   requires psvalid(ps) && Node.n(n) != nil
+//@   ensures psvalid(ps) && ps.src === old(ps.src) && ps.pos >= old(ps.pos)
+//@   ensures [range] 0 <= Node.n(n).From && Node.n(n).From <= Node.n(n).To && Node.n(n).To == ps.pos && Node.n(n).To <= len(ps.src)
+//@   ensures [text-is-slice-of-range] Node.n(n).sourceText === ps.src[Node.n(n).From : Node.n(n).To]
